@@ -161,7 +161,15 @@ pub fn calc<T: HS>(si: &StatIn<T>, mdl: &StubModel<T>) -> Result<FitStatistics<S
     };
     // the weighted data, as fit_with_statistics passes it
     let yw = DVector::from_fn(si.n, |i, _| wt(si, i) * si.y[i]);
-    acc::try_calculate_pub(mdl, yw.as_view(), &weights, si.c.as_view())
+    #[cfg(verif_acc_trycalc)]
+    {
+        acc::try_calculate_pub(mdl, yw.as_view(), &weights, si.c.as_view())
+    }
+    #[cfg(not(verif_acc_trycalc))]
+    {
+        let _ = (mdl, yw, weights);
+        panic!("VERIF-UNSUPPORTED: FitStatistics::try_calculate is not callable with the expected signature (refactored?)")
+    }
 }
 
 pub fn run<T: HS + NativeBand>(cfg: &Cfg, out: &mut Out<T>) {
